@@ -143,7 +143,12 @@ func Load(verifRoot string, m Module, models []string, extraPkgs []string) (*Pro
 		overlay[v] = b
 	}
 	cfg := &packages.Config{Mode: packages.LoadAllSyntax, Dir: m.Dir, Overlay: overlay, Env: GoEnv()}
-	pats := append(append([]string{}, ov.Pkgs...), extraPkgs...)
+	// only the packages the caller needs are loaded (harness files of other packages stay in the overlay
+	// but are not type-checked: some of them need library models that this load may not use)
+	pats := append([]string{}, extraPkgs...)
+	if len(pats) == 0 {
+		pats = append(pats, ov.Pkgs...)
+	}
 	if len(pats) == 0 {
 		return nil, fmt.Errorf("no harness packages for module %s", m.Key)
 	}
